@@ -375,6 +375,9 @@ class Model(EconomicObject):
         if len(lookup) > 0:
             self.GlobalVariables = [(var, replace_token_from_lookup(eqn, lookup) if type(eqn) is str else eqn, desc)
                                     for var, eqn, desc in self.GlobalVariables]
+            # So may exogenous definitions (they are only written into the sectors by _ProcessExogenous(), later).
+            self.Exogenous = [(sec, var, replace_token_from_lookup(eqn, lookup) if type(eqn) is str else eqn)
+                              for sec, var, eqn in self.Exogenous]
 
     def LogInfo(self, generate_full_codes=True, ex=None):  # pragma: no cover
         """
